@@ -98,9 +98,34 @@ impl FilterBodyAction {
                 log::error!("error while filtering: {:?}", err);
                 self.in_error = true;
 
-                data
+                self.release_held_bytes(data)
             }
         }
+    }
+
+    /// When filtering fails, html filters may still hold bytes of previous chunks (unterminated tag,
+    /// buffered element): give them back before the unmodified chunk so that nothing is lost
+    fn release_held_bytes(&mut self, data: Vec<u8>) -> Vec<u8> {
+        #[cfg(feature = "compress")]
+        if self
+            .chain
+            .iter()
+            .any(|item| matches!(item, FilterBodyActionItem::Encode(_) | FilterBodyActionItem::Decode(_)))
+        {
+            return data;
+        }
+
+        let mut output = Vec::new();
+
+        for item in self.chain.iter_mut().rev() {
+            if let FilterBodyActionItem::Html(html_body_filter) = item {
+                output.extend(html_body_filter.end());
+            }
+        }
+
+        output.extend(data);
+
+        output
     }
 
     fn do_filter(&mut self, mut data: Vec<u8>, mut unit_trace: Option<&mut UnitTrace>) -> Result<Vec<u8>> {
